@@ -12,6 +12,7 @@ generator also produces (`allow_ext`): `as` between int / float / bool, float `*
 float members (round, trunc, is_int, to_string), string members (to_upper, to_lower, replace, contains, starts_with,
 repeat with a small count, split), parse_int / parse_float / parse_bool of literals that parse, `sort` of int lists.
 """
+import re
 
 INT_POOL = [0, 1, 2, 3, 5, 7, 10, 42, 100, -1, -2, -7, 255, 2**31 - 1, 2**31, -(2**31), 2**53, 2**62,
             2**63 - 1, -(2**63) + 1]
@@ -30,6 +31,9 @@ def lit_int(v):
             return "(-9223372036854775807 - 1)"
         return f"(-{-v})"
     return str(v)
+
+
+EFFECT_RE = re.compile(r"[A-Za-z_]\w*\(|\{")
 
 
 class Fn:
@@ -66,6 +70,8 @@ class Gen:
         return f"{prefix}{self.counter}"
 
     def vars_of(self, scopes, ty, assignable=False):
+        if getattr(self, "no_vars", False):
+            return []
         out = []
         seen = set()
         for sc in reversed(scopes):
@@ -372,13 +378,19 @@ class Gen:
 
     def call(self, fn, scopes, depth):
         """Call with at most one effectful argument (the others are pure atoms)."""
-        args = []
         eff = self.r.randrange(len(fn.params)) if fn.params else -1
-        for i, (_, pty) in enumerate(fn.params):
-            if i == eff and depth > 0 and self.r.random() < 0.5:
-                args.append(self.expr(pty, scopes, depth - 1, pure=False))
-            else:
-                args.append(self.expr(pty, scopes, 0, pure=True) if pty in (T_INT, T_BOOL, T_STR, T_FLOAT) else self.atom(pty, scopes))
+        args = [None] * len(fn.params)
+        if eff >= 0 and depth > 0 and self.r.random() < 0.5:
+            args[eff] = self.expr(fn.params[eff][1], scopes, depth - 1, pure=False)
+        # the siblings of an argument that calls or runs statements read no variable: what they read could be
+        # written by that argument, and the order of argument evaluation is the open finding V13
+        self.no_vars = args[eff] is not None and EFFECT_RE.search(args[eff]) is not None if eff >= 0 else False
+        try:
+            for i, (_, pty) in enumerate(fn.params):
+                if args[i] is None:
+                    args[i] = self.expr(pty, scopes, 0, pure=True) if pty in (T_INT, T_BOOL, T_STR, T_FLOAT) else self.atom(pty, scopes)
+        finally:
+            self.no_vars = False
         return f"{fn.name}({', '.join(args)})"
 
     # ---- statements -------------------------------------------------------------
@@ -419,7 +431,15 @@ class Gen:
             k = r.randrange(1, 3)
             tys = [r.choice([T_INT, T_BOOL, T_STR, T_LINT, T_OINT, T_OBJ] + ([T_FLOAT] if self.allow_float else [])) for _ in range(k)]
             eff = r.randrange(k)
-            args = [self.expr(t, scopes, d if i == eff else 0, pure=(i != eff)) for i, t in enumerate(tys)]
+            args = [None] * k
+            args[eff] = self.expr(tys[eff], scopes, d, pure=False)
+            self.no_vars = EFFECT_RE.search(args[eff]) is not None          # see call(): V13
+            try:
+                for i, t in enumerate(tys):
+                    if args[i] is None:
+                        args[i] = self.expr(t, scopes, 0, pure=True)
+            finally:
+                self.no_vars = False
             return [f"{r.choice(['println', 'println', 'print'])}({', '.join(args)});"]
         if c < 0.48:
             # assignment to a variable / element / field
